@@ -71,7 +71,7 @@ pub fn route_case_strategy(max_names: usize) -> impl Strategy<Value = RouteCase>
                 any::<u16>(),
                 proptest::collection::vec(0u8..7, 0..=3),
                 any::<u32>(),
-                prop_oneof![10 => Just(0u8), 2 => Just(1u8), 1 => Just(2u8), 1 => Just(3u8), 1 => Just(4u8)],
+                prop_oneof![10 => Just(0u8), 2 => Just(1u8), 1 => Just(2u8), 1 => Just(3u8), 1 => Just(4u8), 2 => Just(5u8)],
                 proptest::bool::weighted(0.85),
                 // A mostly; the types that resolvers treat specially (DS lives at the parent side
                 // of a cut, NS/SOA at the apex, PTR, ...) and any other (not ANY: refused by type)
@@ -153,6 +153,15 @@ fn build_name(c: &RouteCase, n: &NameSpec) -> dns::Name {
             labels.extend(b);
         }
         3 => labels.clear(),
+        5 => {
+            // the first two labels as ONE label with a dot octet inside: another name on the
+            // wire (and for "whole labels") that reads the same in print
+            labels.extend(base);
+            if labels.len() >= 2 && labels[0].len() + labels[1].len() < 63 {
+                let second = labels.remove(1);
+                labels[0] = format!("{}.{}", labels[0], second);
+            }
+        }
         _ => labels.extend(base),
     }
     let mut k = 0;
@@ -271,18 +280,33 @@ impl C15Routes {
         // one query per distinct name: the upstream log is keyed by the question
         let mut uniq: Vec<&NameSpec> = vec![];
         let mut seen_names: std::collections::HashSet<dns::Name> = Default::default();
-        for n in &c.names {
+        // a name with a dot inside a label is asked in a second round, after the name it reads
+        // like (same labels, not joined) has been asked and answered in the first
+        let twins: Vec<NameSpec> = c.names.iter().filter(|n| n.near == 5).map(|n| NameSpec { near: 0, rd: true, qclass: 1, ..n.clone() }).collect();
+        for n in c.names.iter().filter(|n| n.near != 5).chain(twins.iter()).chain(c.names.iter().filter(|n| n.near == 5)) {
             if seen_names.insert(build_name(c, n)) {
                 uniq.push(n);
             } else {
                 out.excluded.push("duplicate-name-in-case");
             }
         }
+        let mut all_results: Vec<(dns::Name, Seen)> = vec![];
+        let second_round = uniq.iter().position(|n| n.near == 5).unwrap_or(uniq.len());
+        let (round1, round2) = uniq.split_at(second_round);
+        for (base_i, uniq) in [(0usize, round1), (second_round, round2)] {
+        if uniq.is_empty() {
+            continue;
+        }
+        if base_i > 0 {
+            out.class("dot-inside-a-label-asked-after-the-name-it-reads-like");
+            out.nontrivial = true;
+        }
         let results: Vec<(dns::Name, Seen)> = std::thread::scope(|s| {
             let hs: Vec<_> = uniq
                 .iter()
                 .enumerate()
                 .map(|(i, n)| {
+                    let i = i + base_i;
                     s.spawn(move || {
                         let name = build_name(c, n);
                         let mut q = dns::query(0x3000 + i as u16, &name, n.qtype, n.qclass, n.rd, None);
@@ -401,11 +425,13 @@ impl C15Routes {
                 }
             }
         }
+        all_results.extend(results);
+        }
         let panics = server.panics();
         if let Some(p) = panics.first() {
             return Err(Fail::new("server-panic", p.clone()));
         }
-        Ok(results.into_iter().map(|r| r.1).collect())
+        Ok(all_results.into_iter().map(|r| r.1).collect())
     }
 }
 
